@@ -288,6 +288,12 @@ func (g *rig) step(op sm.Op, trace *[]string) bool {
 	if !isWrite {
 		return ok
 	}
+	// id generation tries ten candidates of growing length: with fewer than ten ids in use at all one of them is free,
+	// whatever the random source (sequential use: nothing else can make the call fail with Aborted)
+	if g.col != nil && op.ID == "" && op.Opts.GenID && res.Code == codes.Aborted && len(g.state) < 10 && ok {
+		r.Violation(fmt.Sprintf("C01/genid-gave-up/%s/%s", kind, op.Kind), fmt.Sprintf("%v failed with %v (%s) although only %d ids are in use: one of the ten candidates of different lengths must have been free\ntrace:\n%s", op, res.Code, res.Err, len(g.state), strings.Join(*trace, "\n")), replay)
+		ok = false
+	}
 	// generated id must be usable
 	if v.OK && v.Success && op.Opts.GenID && len(res.GenIDs) == 1 && g.col != nil {
 		id := res.GenIDs[0]
